@@ -232,3 +232,43 @@ Lemma cs_halted_unlock_known (r : Z) (s : cstate) : cs_halted (unlock_known r s)
 Proof. unfold unlock_known. destruct (cs_lblock s); [destruct (later_polka_other _ _ _ _ _)|]; autorewrite with cs; reflexivity. Qed.
 #[export] Hint Rewrite cs_height_unlock_known cs_round_unlock_known cs_step_unlock_known cs_triggered_unlock_known cs_proposal_unlock_known cs_pblock_unlock_known cs_pparts_unlock_known cs_vround_unlock_known cs_vblock_unlock_known cs_vparts_unlock_known cs_commit_round_unlock_known cs_votes_unlock_known cs_last_commit_unlock_known cs_scheduled_unlock_known cs_halted_unlock_known : cs.
 Arguments unlock_known : simpl never.
+
+(* relock (enterPrecommit's re-lock, repair of F83) *)
+Lemma cs_height_relock (r : Z) (s : cstate) : cs_height (relock r s) = cs_height s.
+Proof. unfold relock, relock_unfixed. destruct (_ <? _); reflexivity. Qed.
+Lemma cs_round_relock (r : Z) (s : cstate) : cs_round (relock r s) = cs_round s.
+Proof. unfold relock, relock_unfixed. destruct (_ <? _); reflexivity. Qed.
+Lemma cs_step_relock (r : Z) (s : cstate) : cs_step (relock r s) = cs_step s.
+Proof. unfold relock, relock_unfixed. destruct (_ <? _); reflexivity. Qed.
+Lemma cs_triggered_relock (r : Z) (s : cstate) : cs_triggered (relock r s) = cs_triggered s.
+Proof. unfold relock, relock_unfixed. destruct (_ <? _); reflexivity. Qed.
+Lemma cs_proposal_relock (r : Z) (s : cstate) : cs_proposal (relock r s) = cs_proposal s.
+Proof. unfold relock, relock_unfixed. destruct (_ <? _); reflexivity. Qed.
+Lemma cs_pblock_relock (r : Z) (s : cstate) : cs_pblock (relock r s) = cs_pblock s.
+Proof. unfold relock, relock_unfixed. destruct (_ <? _); reflexivity. Qed.
+Lemma cs_pparts_relock (r : Z) (s : cstate) : cs_pparts (relock r s) = cs_pparts s.
+Proof. unfold relock, relock_unfixed. destruct (_ <? _); reflexivity. Qed.
+Lemma cs_lblock_relock (r : Z) (s : cstate) : cs_lblock (relock r s) = cs_lblock s.
+Proof. unfold relock, relock_unfixed. destruct (_ <? _); reflexivity. Qed.
+Lemma cs_lparts_relock (r : Z) (s : cstate) : cs_lparts (relock r s) = cs_lparts s.
+Proof. unfold relock, relock_unfixed. destruct (_ <? _); reflexivity. Qed.
+Lemma cs_commit_round_relock (r : Z) (s : cstate) : cs_commit_round (relock r s) = cs_commit_round s.
+Proof. unfold relock, relock_unfixed. destruct (_ <? _); reflexivity. Qed.
+Lemma cs_votes_relock (r : Z) (s : cstate) : cs_votes (relock r s) = cs_votes s.
+Proof. unfold relock, relock_unfixed. destruct (_ <? _); reflexivity. Qed.
+Lemma cs_last_commit_relock (r : Z) (s : cstate) : cs_last_commit (relock r s) = cs_last_commit s.
+Proof. unfold relock, relock_unfixed. destruct (_ <? _); reflexivity. Qed.
+Lemma cs_scheduled_relock (r : Z) (s : cstate) : cs_scheduled (relock r s) = cs_scheduled s.
+Proof. unfold relock, relock_unfixed. destruct (_ <? _); reflexivity. Qed.
+Lemma cs_halted_relock (r : Z) (s : cstate) : cs_halted (relock r s) = cs_halted s.
+Proof. unfold relock, relock_unfixed. destruct (_ <? _); reflexivity. Qed.
+Lemma cs_lround_relock (r : Z) (s : cstate) : cs_lround (relock r s) = r.
+Proof. unfold relock, relock_unfixed. destruct (_ <? _); reflexivity. Qed.
+Lemma cs_vround_relock (r : Z) (s : cstate) : cs_vround (relock r s) = (if cs_vround s <? r then r else cs_vround s).
+Proof. unfold relock, relock_unfixed. cbn [cs_vround set_locked]. destruct (_ <? _); reflexivity. Qed.
+Lemma cs_vblock_relock (r : Z) (s : cstate) : cs_vblock (relock r s) = (if cs_vround s <? r then cs_lblock s else cs_vblock s).
+Proof. unfold relock, relock_unfixed. cbn [cs_vround set_locked]. destruct (_ <? _); reflexivity. Qed.
+Lemma cs_vparts_relock (r : Z) (s : cstate) : cs_vparts (relock r s) = (if cs_vround s <? r then cs_lparts s else cs_vparts s).
+Proof. unfold relock, relock_unfixed. cbn [cs_vround set_locked]. destruct (_ <? _); reflexivity. Qed.
+#[export] Hint Rewrite cs_height_relock cs_round_relock cs_step_relock cs_triggered_relock cs_proposal_relock cs_pblock_relock cs_pparts_relock cs_lblock_relock cs_lparts_relock cs_commit_round_relock cs_votes_relock cs_last_commit_relock cs_scheduled_relock cs_halted_relock cs_lround_relock cs_vround_relock cs_vblock_relock cs_vparts_relock : cs.
+Arguments relock : simpl never.
